@@ -254,9 +254,10 @@ def step (line : String) : String :=
     let (a, b, d, g, h) := genTables L
     let st0 : HFMem Float := { map := ∅, dflt := 0.0 }
     let ims := imsqrtTable [(bf are, bf aim, bf isA), (bf gre, bf gim, bf isG)]
-    let st := Gen.Wigner_D_rotor (α := Float) (fun i => Rv.getD i.toNat 0.0) 6 g h L L a b d 0 1 2 3 4 ims 5 ellmin.toInt! st0
     let fa := parseCxArray f
-    let st2 := Gen.u_rotate (α := Float) (cxFun fa) 8 ellmin.toInt! L L 0 eM s.toInt! (fun i => frdC (α := Float) st 3 i) 1 0 0 st
+    -- (the GENERATED matrix branch of the method: `D = self.D(R, …)` then `_rotate(…, D)`)
+    let st2 := Gen.Wigner_rotate_matrix_body (α := Float) (fun i => Rv.getD i.toNat 0.0) 6 g h L L a b d 0 1 2 3 4 ims 5 ellmin.toInt!
+      (cxFun fa) 8 0 eM s.toInt! 1 0 0 st0
     String.intercalate " " ((Spec.yRange 0 eM).map (fun t => cxs (frdC (α := Float) st2 8 (t.1 * (t.1 + 1) + t.2))))
   | "genevalM" :: L :: P :: ellmin :: s :: ellMaxM :: r0 :: r1 :: r2 :: r3 :: are :: aim :: isA :: pre :: pim :: f =>
     -- the matrix route of `Wigner.evaluate`, all from the source: the GENERATED body of `Wigner.sYlm` fills `Y` (array 3), then the GENERATED
@@ -266,10 +267,10 @@ def step (line : String) : String :=
     let (a, b, d, g, h) := genTables L
     let st0 : HFMem Float := { map := ∅, dflt := 0.0 }
     let ims := imsqrtTable [(bf are, bf aim, bf isA)]
-    let st := Gen.Wigner_sYlm_rotor (α := Float) (fun i => Rv.getD i.toNat 0.0) 6 g h L P a b d 0 1 2 3 4 ims
-      (fun _ _ => ⟨bf pre, bf pim⟩) s.toInt! ellmin.toInt! st0
     let fa := parseCxArray f
-    let st2 := Gen.Wigner_evaluate_matrix_contract (α := Float) (cxFun fa) (fun i => frdC (α := Float) st 3 i) 8 ellmin.toInt! 0 ellMaxM.toInt! 1 0 st
+    -- (the GENERATED loop body of the matrix branch: `self.sYlm(…, out=Y)` then `np.matmul`)
+    let st2 := Gen.Wigner_evaluate_matrix_rotor (α := Float) (fun i => Rv.getD i.toNat 0.0) 6 g h L P a b d 0 1 2 3 4 ims
+      (fun _ _ => ⟨bf pre, bf pim⟩) s.toInt! ellmin.toInt! (cxFun fa) 8 0 ellMaxM.toInt! 1 0 st0
     cxs (frdC (α := Float) st2 8 0)
   | ["dfull", L, ellmin, c, s, dflt] =>
     let L := L.toNat!
